@@ -240,6 +240,21 @@ class Sym:
         q = self / o
         return Sym(p_const(_floor(q)))
 
+    def __rfloordiv__(self, o):
+        q = Sym.lift(o) / self
+        return Sym(p_const(_floor(q)))
+
+    def __mod__(self, o):
+        # Python / NumPy: a % b = a - b * floor(a / b)
+        return self - Sym.lift(o) * (self // o)
+
+    def __rmod__(self, o):
+        return Sym.lift(o) - self * (Sym.lift(o) // self)
+
+    def __divmod__(self, o):
+        q = self // o
+        return q, self - Sym.lift(o) * q
+
     def __abs__(self):
         if self.is_const():
             return Sym(p_const(abs(self.const())))
